@@ -1190,6 +1190,11 @@ fn c07_third_parties(ctx: &Ctx, cov: &mut Cover) {
             | Op::AddNativeDecimals { .. }
             | Op::UpdateConfig { .. }
             | Op::MigratePair { .. } => allowed.push(m.factory.clone()),
+            Op::Migrate { target, .. } => {
+                if let Some(a) = m.addr(target) {
+                    allowed.push(a);
+                }
+            }
             Op::Raw { .. } => {
                 *via_trace = true;
                 *system_op = false;
